@@ -17,6 +17,7 @@ import (
 	"database/sql"
 	"fmt"
 	"math"
+	mrand "math/rand"
 	"os"
 	"path/filepath"
 	"sort"
@@ -101,6 +102,7 @@ type c03Config struct {
 	Compression, DataPageVersion                            string
 	UseDictionary, NumericDictionary, WriteStatistics       bool
 	Decimal                                                 bool
+	PerMeasurementDecimal                                   bool // with Decimal: a different DecimalSpec per measurement
 }
 
 type c03Case struct {
@@ -136,18 +138,45 @@ func c03GenFloat(t *rapid.T, label string) float64 {
 	}
 }
 
-// c03DecString renders units/10^4 with exactly four fractional digits.
-func c03DecString(units int64) string {
+// c03DecString renders units/10^scale with exactly scale fractional digits.
+func c03DecString(units int64, scale int) string {
 	neg := units < 0
 	u := units
 	if neg {
 		u = -u
 	}
-	s := fmt.Sprintf("%d.%04d", u/10000, u%10000)
+	p := int64(1)
+	for i := 0; i < scale; i++ {
+		p *= 10
+	}
+	s := fmt.Sprintf("%d.%0*d", u/p, scale, u%p)
 	if neg {
 		s = "-" + s
 	}
 	return s
+}
+
+// c03DecScale is the configured scale of column "dec" for a measurement.
+func c03DecScale(cfg c03Config, m string) int {
+	if cfg.PerMeasurementDecimal {
+		switch m {
+		case "m0":
+			return 4 // m0:dec=18,4
+		case "m1":
+			return 2 // m1:dec=12,2
+		default:
+			return 1 // default dec=10,1
+		}
+	}
+	return 4
+}
+
+func c03Pow10(n int) int64 {
+	p := int64(1)
+	for i := 0; i < n; i++ {
+		p *= 10
+	}
+	return p
 }
 
 // c03GenTimes draws n microsecond timestamps spread over <= 5 hours around a base.
@@ -276,13 +305,14 @@ func c03GenBatch(t *rapid.T, cfg c03Config, bases []int64, rid *int64) (*c03Batc
 				c.Canon[i] = duck.Canon(v)
 			case "dec":
 				units := rapid.Int64Range(-1_000_000_000, 1_000_000_000).Draw(t, "dv")
+				scale := c03DecScale(cfg, b.M)
 				if rapid.Bool().Draw(t, "decAsInt") {
-					whole := units / 10000
+					whole := units / c03Pow10(scale)
 					c.vals[i] = whole
-					c.Canon[i] = "d:" + c03DecString(whole*10000)
+					c.Canon[i] = "d:" + c03DecString(whole*c03Pow10(scale), scale)
 				} else {
-					c.vals[i] = c03DecString(units)
-					c.Canon[i] = "d:" + c03DecString(units)
+					c.vals[i] = c03DecString(units, scale)
+					c.Canon[i] = "d:" + c03DecString(units, scale)
 				}
 			}
 		}
@@ -325,6 +355,7 @@ func c03GenCase(t *rapid.T) (*c03Case, bool) {
 		WriteStatistics:   rapid.Bool().Draw(t, "stats"),
 		Decimal:           rapid.IntRange(0, 3).Draw(t, "decimal") == 0,
 	}
+	c.Cfg.PerMeasurementDecimal = c.Cfg.Decimal && rapid.Bool().Draw(t, "perMeasurementDecimal")
 	if c03Light() {
 		// race-detector part: the zstd/gzip encoders allocate MBs per file, which the
 		// race runtime makes ~20x slower; the codec is irrelevant to interleavings
@@ -439,6 +470,10 @@ func c03NewBuffer(cfg c03Config, root string) (*ArrowBuffer, error) {
 	}
 	if cfg.Decimal {
 		ic.DefaultDecimalColumns = "dec=18,4"
+		if cfg.PerMeasurementDecimal {
+			ic.DecimalColumns = []string{"m0:dec=18,4", "m1:dec=12,2"}
+			ic.DefaultDecimalColumns = "dec=10,1"
+		}
 	}
 	return NewArrowBuffer(ic, be, zerolog.Nop()), nil
 }
@@ -1020,4 +1055,133 @@ func c03FrozenClockFlushes(t *testing.T) (int, int) {
 		t.Fatalf("read back: %v", err)
 	}
 	return len(files), len(tb.Rows)
+}
+
+// ---------------------------------------------------------------- directed scenarios
+
+// c03ManualBatch builds a batch without rapid: a row-id column plus optional extras.
+func c03ManualBatch(api, db, m string, times []int64, rid *int64) *c03Batch {
+	b := &c03Batch{API: api, DB: db, M: m, N: len(times), Times: times, Cols: map[string]*c03Col{}}
+	c := &c03Col{Type: "i64", Canon: make([]string, b.N), vals: make([]interface{}, b.N)}
+	for i := range times {
+		*rid++
+		c.vals[i] = *rid
+		c.Canon[i] = duck.Canon(*rid)
+	}
+	b.Cols["rid"] = c
+	return b
+}
+
+func c03RunDirected(t *testing.T, label string, c *c03Case) {
+	root, err := os.MkdirTemp("", "c03d-*")
+	if err != nil {
+		t.Fatalf("tempdir: %v", err)
+	}
+	defer os.RemoveAll(root)
+	out, runErr := c03Run(c, root)
+	verifkit.Eval()
+	verifkit.Class("scenario:" + strings.SplitN(label, " ", 2)[0])
+	verifkit.NonTrivial(label + "|" + c03Key(c))
+	if runErr != nil {
+		verifkit.WriteReplay("c03-history", c)
+		t.Fatalf("VERIF-FAIL class=C03/flush-error (%s) %v\ncase=%v", label, runErr, c.summary(out))
+	}
+	if class, detail := c03CheckStore(root, out); class != "" {
+		verifkit.WriteReplay("c03-history", c)
+		t.Fatalf("VERIF-FAIL class=C03/%s (%s)\n  %s\ncase=%v", class, label, detail, c.summary(out))
+	}
+}
+
+func c03DirectedSeed() int64 {
+	n, _ := strconv.ParseInt(os.Getenv("VERIF_SEED"), 10, 64)
+	return n*7919 + 17
+}
+
+// TestVerifC03_LargeUnsortedFlush: one size-triggered flush of >= 4096 rows that
+// arrive out of time order (the radix-sort path), with the smallest and largest
+// timestamp agreeing in one or more LOW bytes while the rows in between do not -
+// the coincidence random microsecond data hits about once in a hundred large
+// flushes. The written file must still be in non-decreasing time order and hold
+// every row once. Deterministic for a given VERIF_SEED.
+func TestVerifC03_LargeUnsortedFlush(t *testing.T) {
+	rng := mrand.New(mrand.NewSource(c03DirectedSeed()))
+	bases := []int64{1_700_000_000_000_000 / c03MicroPerHour * c03MicroPerHour, -2_208_988_800_000_000 + 7*c03MicroPerHour, -c03MicroPerHour}
+	spans := []int64{3 * 65536, 5 * 256, 2<<24 + 0, 7 << 16, 1 << 32 / 4096 * 4096} // max-min: low byte(s) of min and max coincide
+	k := 0
+	for ni, n := range []int{4096, 6000} {
+		for si, span := range spans {
+			if span >= c03MicroPerHour-1000 {
+				span = 9 << 24
+			}
+			if (si+ni)%2 == 1 && si != 0 {
+				continue // 3 spans per size keeps the quick tier short
+			}
+			base := bases[k%len(bases)] + int64(rng.Intn(1_000_000))
+			k++
+			times := make([]int64, n)
+			times[0], times[1] = base, base+span
+			for i := 2; i < n; i++ {
+				times[i] = base + rng.Int63n(span+1)
+			}
+			rng.Shuffle(n, func(i, j int) { times[i], times[j] = times[j], times[i] })
+			var rid int64
+			api := []string{"generic", "typed", "write"}[k%3]
+			b := c03ManualBatch(api, "db0", "m0", times, &rid)
+			// a nullable column, so that the validity bitmap has to follow the permutation
+			nc := &c03Col{Type: "i64", Canon: make([]string, n), vals: make([]interface{}, n)}
+			for i := 0; i < n; i++ {
+				if rng.Intn(3) == 0 {
+					nc.Canon[i] = duck.Null
+					continue
+				}
+				v := times[i] - base
+				nc.vals[i] = v
+				nc.Canon[i] = duck.Canon(v)
+			}
+			b.Cols["a"] = nc
+			c := &c03Case{Cfg: c03Config{MaxBufferSize: n, MaxBufferAgeMS: 3_600_000, FlushWorkers: 1, ShardCount: 1, Compression: "snappy", DataPageVersion: "2.0"},
+				Rounds: []c03Round{{Ops: []c03Op{{Kind: "write", Batch: b}}}}, Final: "flushAll+close"}
+			c03RunDirected(t, fmt.Sprintf("large-unsorted-flush n=%d span=%d", n, span), c)
+		}
+	}
+}
+
+// TestVerifC03_DecimalPerMeasurement: measurements with the SAME column layout
+// but different configured DecimalSpecs, flushed one after the other through one
+// ArrowBuffer (both orders, two flush triggers): every decimal value must read
+// back as written.
+func TestVerifC03_DecimalPerMeasurement(t *testing.T) {
+	rng := mrand.New(mrand.NewSource(c03DirectedSeed() + 1))
+	cfg := c03Config{MaxBufferSize: 1000, MaxBufferAgeMS: 3_600_000, FlushWorkers: 1, ShardCount: 2, Compression: "snappy", DataPageVersion: "2.0",
+		Decimal: true, PerMeasurementDecimal: true}
+	for _, order := range [][]string{{"m0", "m1", "m2"}, {"m2", "m1", "m0"}, {"m1", "m0", "m1"}} {
+		for _, trigger := range []string{"flushAll", "agedFlush"} {
+			var rid int64
+			c := &c03Case{Cfg: cfg, Final: "flushAll+close"}
+			for _, m := range order {
+				n := 3 + rng.Intn(5)
+				times := make([]int64, n)
+				for i := range times {
+					times[i] = 1_700_000_000_000_000 + int64(rng.Intn(3_000_000_000))
+				}
+				b := c03ManualBatch("generic", "db0", m, times, &rid)
+				scale := c03DecScale(cfg, m)
+				dc := &c03Col{Type: "dec", Canon: make([]string, n), vals: make([]interface{}, n)}
+				for i := 0; i < n; i++ {
+					units := rng.Int63n(2_000_000_000) - 1_000_000_000
+					if i%2 == 0 {
+						dc.vals[i] = c03DecString(units, scale)
+						dc.Canon[i] = "d:" + c03DecString(units, scale)
+					} else {
+						whole := units / c03Pow10(scale)
+						dc.vals[i] = whole
+						dc.Canon[i] = "d:" + c03DecString(whole*c03Pow10(scale), scale)
+					}
+				}
+				b.Cols["dec"] = dc
+				c.Rounds = append(c.Rounds, c03Round{Ops: []c03Op{{Kind: "write", Batch: b}}}, c03Round{Ops: []c03Op{{Kind: trigger}}})
+			}
+			c03RunDirected(t, fmt.Sprintf("decimal-per-measurement %v %s", order, trigger), c)
+		}
+	}
 }
